@@ -24,7 +24,13 @@ pub struct Context {
 
     /// Default argument expressions from function declarations - for definitions that do not repeat them
     declared_default_arguments: HashMap<ir::FunctionId, Vec<Option<ast::Expression>>>,
+
+    /// Number of template instantiations we are currently inside
+    template_instantiation_depth: u32,
 }
+
+/// Limit for template instantiations that require another instantiation
+const MAX_TEMPLATE_INSTANTIATION_DEPTH: u32 = 64;
 
 pub type ScopeIndex = usize;
 
@@ -90,6 +96,7 @@ impl Context {
             function_to_scope: HashMap::new(),
             declared_default_arguments: HashMap::new(),
             struct_template_data: Vec::new(),
+            template_instantiation_depth: 0,
         };
 
         // For each builtin global value
@@ -416,7 +423,16 @@ impl Context {
             let struct_template_data = &mut self.struct_template_data[id.0 as usize];
             let sid_res = match struct_template_data.instantiations.get(&final_params) {
                 Some(sid) => Ok(*sid),
-                None => build_struct_from_template(ast, inst_scope, self),
+                None if self.template_instantiation_depth >= MAX_TEMPLATE_INSTANTIATION_DEPTH => {
+                    // A template that needs an instance of itself never completes
+                    Err(TyperError::TemplateInstantiationTooDeep(error_loc))
+                }
+                None => {
+                    self.template_instantiation_depth += 1;
+                    let res = build_struct_from_template(ast, inst_scope, self);
+                    self.template_instantiation_depth -= 1;
+                    res
+                }
             };
 
             // Back to calling scope
@@ -1713,7 +1729,21 @@ impl Context {
                 .get_template_source(parent_id)
                 .clone()
                 .unwrap();
-            parse_function_body(&ast, new_id, signature.clone(), self)?;
+            if self.template_instantiation_depth >= MAX_TEMPLATE_INSTANTIATION_DEPTH {
+                // A template that needs a new instance of itself each time never completes
+                let location = self
+                    .module
+                    .function_registry
+                    .get_function_name_definition(new_id)
+                    .name
+                    .location;
+                self.current_scope = caller_scope_position;
+                return Err(TyperError::TemplateInstantiationTooDeep(location));
+            }
+            self.template_instantiation_depth += 1;
+            let res = parse_function_body(&ast, new_id, signature.clone(), self);
+            self.template_instantiation_depth -= 1;
+            res?;
 
             // Return active scope
             assert_eq!(self.current_scope, parent_scope_id);
